@@ -51,6 +51,24 @@ class Dev:
         ctx.set(self.clkcat, mask)
         ctx.set(self.clkcat, 0)
 
+    def step_checked(self, ctx, st, ev):
+        """Apply one event and compare with the model; for clock edges the comparison is made right
+        after the rising edge and again after the clock has fallen. -> new model state"""
+        if ev[0] == "edge":
+            ctx.set(self.clkcat, ev[1])
+            st2 = self.model_step(st, ev)
+            try:
+                self.check(ctx, st2)
+            except Viol as v:
+                v.detail["when"] = "right after the rising edge"
+                raise
+            ctx.set(self.clkcat, 0)
+        else:
+            self.apply(ctx, ev)
+            st2 = self.model_step(st, ev)
+        self.check(ctx, st2)
+        return st2
+
 
 class FFSyncDev(Dev):
     """din --(idom register)--> i --FFSynchronizer--> o"""
@@ -221,11 +239,9 @@ def run_schedule(dev, events, out, label):
         try:
             dev.check(ctx, st)
             for n, ev in enumerate(events):
-                dev.apply(ctx, ev)
-                st = dev.model_step(st, ev)
                 out["evaluations"] += 1
                 try:
-                    dev.check(ctx, st)
+                    st = dev.step_checked(ctx, st, ev)
                 except Viol as v:
                     v.detail.update(step=n, events=[list(e) for e in events[:n + 1]], config=dev.cfg)
                     raise
@@ -282,11 +298,9 @@ def enumerate_sequences(dev, L, out):
                     continue
                 for ev in dev.letters(st):
                     restore(k, st)
-                    dev.apply(ctx, ev)
-                    st2 = dev.model_step(st, ev)
                     count[0] += 1
                     try:
-                        dev.check(ctx, st2)
+                        st2 = dev.step_checked(ctx, st, ev)
                     except Viol as v:
                         v.detail.update(events=[list(e) for e in path + [ev]], config=dev.cfg)
                         raise
